@@ -1200,7 +1200,7 @@ fn oracle(c: &Case, o: &Outcome, cap: usize) -> Option<(String, String)> {
             let first_missing = (0..n).find(|s| seqs.binary_search(s).is_err()).unwrap_or(0);
             return Some((
                 format!(
-                    "{} stream of {} frames, subscriber {} (attached early, read late): {} frames from seq {} on were skipped silently - the receiver overflowed the {}-frame channel and the handler did not re-read the history after RecvError::Lagged; body = 0..{} then the last {} frames",
+                    "{} stream of {} frames, subscriber {} (attached early, read late): {} frames from seq {} on were skipped silently - the receiver overflowed the {}-frame channel (RecvError::Lagged) and the handler's recovery did not deliver them (the history was not re-read, or a frame emitted while it recovered is in neither the re-read history nor the receiver it carried on with); body = 0..{} then the last {} frames",
                     c.kind.name(), n, i + 1, n as usize - seqs.len(), first_missing, cap, first_missing, n - first_missing - (n - seqs.len() as u64)
                 ),
                 // the class names the capacity: the known finding is "lag beyond 16384 pending frames"; the same loss with
@@ -1523,6 +1523,8 @@ fn main() {
         // positions worth attaching at: the producer parked at a point of this stream kind's emitter
         // (before / between / after publish and record), plus "before the producer starts" and "after it finished"
         let relevant = |p: &str| match kind {
+            // (a provider-backed run has 12 - 50 frames: the positions between record and publish and after the publish)
+            Kind::Session if matches!(load, Load::Agent(_)) => p == "sess.recorded" || p == "sess.sent",
             Kind::Session => p.starts_with("sess."),
             Kind::Task => p.starts_with("task."),
             // incl. the file-system steps of the truth log and of the sidecar `replay_events` reads (a snapshot taken
@@ -1533,7 +1535,7 @@ fn main() {
         pos.extend(trace.iter().enumerate().filter(|(_, p)| relevant(p)).map(|(i, _)| i + 1));
         pos.push(t + 1);
         res.notes.push(format!("{} {}: {} producer points, {} attach positions", kind.name(), load.label(), t, pos.len()));
-        let reach = if thorough { 7 } else { 4 };
+        let reach = if matches!(load, Load::Agent(_)) { 2 } else if thorough { 7 } else { 4 };
         for (ia, a_) in pos.iter().enumerate() {
             for ib in ia..pos.len() {
                 // gap states: snapshot while the producer is at the same position, at one of the next few, or finished
